@@ -22,17 +22,18 @@ const (
 
 // TLCOpts describes one TLC invocation on a module of /verif/spec.
 type TLCOpts struct {
-	Module   string            // module name without .tla
-	Cfg      string            // cfg text (written next to the module)
-	Simulate string            // "" for BFS, else e.g. "num=500"
-	Depth    int               // -depth for simulation
-	Seed     int64             // -seed (simulation)
-	Workers  int               // 0 => 16 for BFS, 1 for simulation
-	Env      map[string]string // extra environment (IOEnv in specs)
-	Timeout  time.Duration
-	DFS      bool // use the depth-first state queue (trace validation with branching)
-	Coverage bool
-	Files    map[string]string // extra files written into the scratch dir
+	Module        string            // module name without .tla
+	Cfg           string            // cfg text (written next to the module)
+	Simulate      string            // "" for BFS, else e.g. "num=500"
+	Depth         int               // -depth for simulation
+	Seed          int64             // -seed (simulation)
+	Workers       int               // 0 => 16 for BFS, 1 for simulation
+	Env           map[string]string // extra environment (IOEnv in specs)
+	Timeout       time.Duration
+	DFS           bool // use the depth-first state queue (trace validation with branching)
+	Coverage      bool
+	Files         map[string]string // extra files written into the scratch dir
+	CheckDeadlock bool              // leave TLC's deadlock check on
 }
 
 // TLCStats is what TLC reported about the run.
@@ -122,7 +123,10 @@ func RunTLC(o TLCOpts, onJSON func(raw []byte)) (TLCStats, error) {
 	if o.Coverage {
 		args = append(args, "-coverage", "1")
 	}
-	args = append(args, "-deadlock", filepath.Join(dir, o.Module+".tla"))
+	if !o.CheckDeadlock {
+		args = append(args, "-deadlock")
+	}
+	args = append(args, filepath.Join(dir, o.Module+".tla"))
 	timeout := o.Timeout
 	if timeout == 0 {
 		timeout = 30 * time.Minute
